@@ -56,26 +56,23 @@ Proof.
   destruct (split_line rest) as [line rest']. destruct (negb (utf8_valid line)); [reflexivity|].
   unfold is_boundary_line. rewrite He. unfold ends_with. cbn [rev prefixb]. reflexivity.
 Qed.
-Lemma body_phase_nopanic : forall fuel esc rest acc, esc <> [] -> body_phase fuel esc rest acc <> BPanic.
+Lemma body_phase_nopanic : forall fuel esc rest acc, body_phase fuel esc rest acc <> BPanic.
 Proof.
-  induction fuel as [|f IH]; intros esc rest acc He; cbn [body_phase]; [discriminate|].
+  induction fuel as [|f IH]; intros esc rest acc; cbn [body_phase]; [discriminate|].
   destruct rest as [|c r]; [discriminate|]. destruct (split_line (c :: r)) as [line rest'].
-  destruct (Nat.leb (length esc) (length line)); [|apply IH, He].
-  destruct esc as [|e es]; [congruence|]. destruct (find_sub line (e :: es)); [discriminate|apply IH, He].
+  destruct (is_delim line esc); [discriminate|apply IH].
 Qed.
-(* the windows(0) hazard of FormMultipartData::parse is unreachable: an all-hyphen boundary is rejected by the header phase *)
+(* FormMultipartData::parse has no panic site (the windows(0) hazard disappeared with find_subsequence, fix 6696883) *)
 Theorem windows0_unreachable data boundary : multipart_parse data boundary <> MPanicWindows0.
 Proof.
   unfold multipart_parse. destruct (split_line data) as [line rest]. destruct (negb (utf8_valid line)); [discriminate|].
   destruct (negb (is_boundary_line _ boundary)); [discriminate|].
   generalize (S (length rest)) as fuel. generalize (@nil part) as acc. revert rest.
   intros rest acc fuel. revert rest acc. induction fuel as [|f IH]; intros rest acc; cbn [parts_loop]; [discriminate|].
-  destruct (strip_hyphens boundary) as [|e es] eqn:Ee.
-  - rewrite header_phase_empty_esc by exact Ee. discriminate.
-  - destruct (header_phase (S (length rest)) boundary rest []) as [hs rest1| |]; try discriminate.
-    destruct (body_phase (S (length rest1)) (e :: es) rest1 []) as [b rest2|b|] eqn:Eb; try discriminate.
-    + destruct rest2; [discriminate|apply IH].
-    + exfalso. eapply body_phase_nopanic; [|exact Eb]. discriminate.
+  destruct (header_phase (S (length rest)) boundary rest []) as [hs rest1| |]; try discriminate.
+  destruct (body_phase (S (length rest1)) (strip_hyphens boundary) rest1 []) as [b rest2|b|] eqn:Eb; try discriminate.
+  - destruct rest2; [discriminate|apply IH].
+  - exfalso. eapply body_phase_nopanic; exact Eb.
 Qed.
 
 Definition fres_ok (f : fres) : Prop := match f with FNoMatch | FResp _ => True | _ => False end.
